@@ -32,6 +32,10 @@ pub enum Shape {
     SelfBlock,
     /// chain of n templates whose block calls super()
     SuperChain(u16),
+    /// a recursive loop that hands itself the same data again, so it never stops by itself:
+    /// 0 `{{ loop(data) }}`, 1 through an alias called from a nested plain loop, 2 through an
+    /// alias inside a with block, 3 alias + nested loop over two items, 4 the result used as a value
+    UnboundedLoop(u8),
 }
 
 #[derive(Clone, Debug, Serialize, Deserialize)]
@@ -144,6 +148,25 @@ pub fn build(c: &RecCase) -> (String, Vec<(String, String)>, Value) {
                 Value::from_pairs([("data", data), ("d", Value::from(d0))]),
             )
         }
+        Shape::UnboundedLoop(kind) => {
+            let mut c = c.clone();
+            c.work.retain(|w| !matches!(*w as usize % WRAPS.len(), 1 | 6));
+            c.bounded = None;
+            let c = &c;
+            let step = match kind % 5 {
+                0 => "{{ loop(data) }}",
+                1 => "{% set again = loop %}{% for q in [1] %}{{ again(data) }}{% endfor %}",
+                2 => "{% set again = loop %}{% with w = 1 %}{{ again(data) }}{% endwith %}",
+                3 => "{% set again = loop %}{% for q in [1, 2] %}{% if loop.last %}{{ again(data) }}{% endif %}{% endfor %}",
+                _ => "{% set r = loop(data) %}{{ r|upper }}",
+            };
+            let inner = wrap(c, step);
+            (
+                format!("{HELPERS}{{% for x in data recursive %}}{{{{ tick() }}}}.{inner}{{% endfor %}}"),
+                vec![("leaf.txt".to_string(), "l".to_string())],
+                Value::from_pairs([("data", Value::from(vec![1])), ("d", Value::from(d0))]),
+            )
+        }
         Shape::SelfBlock => {
             let inner = wrap(c, &format!("{guard_open}{{% set d = d - 1 %}}{{{{ self.b() }}}}{guard_close}"));
             (
@@ -182,6 +205,26 @@ fn render(c: &RecCase, limit: usize) -> Out {
     let mut env = Environment::new();
     env.set_debug(c.debug);
     env.set_recursion_limit(limit);
+    // a loop recursion that the limit fails to cut ends here instead of never (reported as an
+    // unexpected error); 500 levels of the heaviest frame need a fraction of this
+    if matches!(c.shape, Shape::UnboundedLoop(_)) {
+        env.set_fuel(Some(400_000));
+        // every level of the loop recursion reports to the host; a level far beyond the limit
+        // is an error of its own, so "the limit never trips" is a verdict and not a timeout
+        let levels = std::sync::Arc::new(std::sync::atomic::AtomicUsize::new(0));
+        let max_levels = 2 * limit + 64;
+        env.add_function("tick", move || -> Result<String, minijinja::Error> {
+            let n = levels.fetch_add(1, std::sync::atomic::Ordering::SeqCst) + 1;
+            if n > max_levels {
+                Err(minijinja::Error::new(
+                    minijinja::ErrorKind::InvalidOperation,
+                    format!("loop recursion reached level {n} although the recursion limit is {limit}"),
+                ))
+            } else {
+                Ok(String::new())
+            }
+        });
+    }
     for (n, s) in comps {
         if let Err(e) = env.add_template_owned(n, s) {
             return Out::OtherError(format!("companion does not load: {e}"));
@@ -230,6 +273,7 @@ fn edge_names(c: &RecCase) -> String {
         Shape::RecursiveLoop(_) => "recursive_loop".into(),
         Shape::SelfBlock => "block".into(),
         Shape::SuperChain(_) => "block_super".into(),
+        Shape::UnboundedLoop(_) => "unbounded_loop".into(),
     }
 }
 
@@ -256,6 +300,7 @@ impl Part for Recursion {
             2 => (1u16..900).prop_map(Shape::RecursiveLoop),
             1 => Just(Shape::SelfBlock),
             1 => (2u16..450).prop_map(Shape::SuperChain),
+            2 => (0u8..5).prop_map(Shape::UnboundedLoop),
         ];
         (
             shape,
@@ -310,6 +355,7 @@ impl Part for Recursion {
             Shape::RecursiveLoop(_) => "recursive_loop",
             Shape::SelfBlock => "self_block",
             Shape::SuperChain(_) => "super_chain",
+            Shape::UnboundedLoop(_) => "unbounded_loop",
         });
         match handle.join() {
             Ok(Ok((first, smaller))) => {
